@@ -31,8 +31,27 @@ Proof.
   destruct l as [|[a w] l]; [discriminate|]. cbn [firstn lookup] in *.
   destruct (a =? k); [exact H | apply IH; exact H].
 Qed.
+Lemma lookup_fit k n (l : ents) v : lookup k (fit n l) = Some v -> lookup k l = Some v.
+Proof.
+  revert n; induction l as [|[a w] l IH]; intros n H; [discriminate|]. cbn [fit] in H.
+  destruct (Nat.leb (vsize w) n); [|discriminate]. cbn [lookup] in *.
+  destruct (a =? k); [exact H | eapply IH; exact H].
+Qed.
 Lemma lookup_trim k c (l : ents) v : lookup k (trim c l) = Some v -> lookup k l = Some v.
-Proof. destruct c as [n|]; cbn [trim]; [apply lookup_firstn | auto]. Qed.
+Proof. destruct c as [n|]; cbn [trim]; [apply lookup_fit | auto]. Qed.
+
+(* a value bigger than the whole capacity does not stay cached: the write evicts everything, itself included *)
+Lemma set_oversize c k v n : c_cap c = Some n -> (n < vsize v)%nat -> c_ents (c_set c k v) = [].
+Proof.
+  intros Hc Hn. unfold c_set. cbn [c_ents]. rewrite Hc. cbn [trim fit].
+  destruct (Nat.leb (vsize v) n) eqn:E; [|reflexivity]. apply Nat.leb_le in E. lia.
+Qed.
+(* a value that fits is cached by the write *)
+Lemma set_fits c k v n : c_cap c = Some n -> (vsize v <= n)%nat -> c_peek (c_set c k v) k = Some v.
+Proof.
+  intros Hc Hn. unfold c_peek, c_set. cbn [c_ents]. rewrite Hc. cbn [trim fit].
+  apply Nat.leb_le in Hn. rewrite Hn. cbn [lookup]. rewrite Z.eqb_refl. reflexivity.
+Qed.
 
 (* Set: afterwards an entry is either the one just written or was there before *)
 Lemma peek_set c k v k' v' : c_peek (c_set c k v) k' = Some v' -> (k' = k /\ v' = v) \/ (k' <> k /\ c_peek c k' = Some v').
